@@ -219,6 +219,7 @@ def fp_value(v):
 # bit-blasting a Float64 multiplier is only paid when really needed.
 
 _ARITH = {
+    z3.Z3_OP_FPA_ROUND_TO_INTEGRAL: "rint",
     z3.Z3_OP_FPA_ADD: "add",
     z3.Z3_OP_FPA_SUB: "sub",
     z3.Z3_OP_FPA_MUL: "mul",
@@ -257,7 +258,13 @@ def fp_abstract(fs):
             big = z3.FPVal(1e300 if S.sbits() > 24 else 1e30, S)
             r = fresh(S)
             op = _ARITH[k]
-            if op == "sqrt":
+            if op == "rint":
+                a = ch[1]
+                axioms.append(N(r) == N(a))
+                axioms.append(z3.Implies(I(a), r == a))
+                axioms.append(z3.Implies(z3.And(fin(a), z3.fpGEQ(a, zero)), z3.And(fin(r), z3.fpGEQ(r, zero))))
+                axioms.append(z3.Implies(z3.And(fin(a), z3.fpLEQ(a, zero)), z3.And(fin(r), z3.fpLEQ(r, zero))))
+            elif op == "sqrt":
                 a = ch[1]
                 axioms.append(N(r) == z3.Or(N(a), z3.And(neg(a), z3.Not(Zr(a)))))
                 axioms.append(z3.Implies(z3.Not(N(r)), z3.fpGEQ(r, zero)))
